@@ -637,6 +637,7 @@ void gen_generic(int fi) {
     size_t dm[40]; int ndm = 0;
     for (int i = 1; i <= N + 2; i++) ndm = uniq_add(dm, ndm, i);
     if (!(f->flags & F_QRY)) { ndm = uniq_add(dm, ndm, 0x1f); ndm = uniq_add(dm, ndm, 0x20); ndm = uniq_add(dm, ndm, 0x21); ndm = uniq_add(dm, ndm, 0x22); }
+    if (g_tier) { static const size_t big[] = { 63, 64, 65, 127, 128, 129, 255, 256, 257 }; for (int i = 0; i < 9; i++) ndm = uniq_add(dm, ndm, big[i]); }   /* block sizes of the unrolled primitives and scratch thresholds */
     size_t sl[40]; int nsl = 0;
     if (has_l) { for (int i = 0; i <= N + 2; i++) nsl = uniq_add(sl, nsl, i); } else sl[nsl++] = 0;
     long cv[8]; int ncv = 0;
@@ -905,7 +906,7 @@ int main(int argc, char **argv) {
     if (replay) { g_variant = argv[3]; g_locale = argv[4]; caseline = argv[5]; fname = NULL; g_verbose = 1; }
     else { if (argc < 7) usage(); g_tier = !strcmp(argv[3], "thorough"); g_variant = argv[4]; g_locale = argv[5]; fname = argv[6];
            if (argc >= 9) { shard_i = atol(argv[7]); shard_n = atol(argv[8]); } }
-    g_N = g_tier ? 8 : 5;
+    g_N = g_tier ? 14 : 5;
     if (getenv("CAT_N")) g_N = atoi(getenv("CAT_N"));
     guard_prot = (P == 2) ? PROT_NONE : PROT_READ;
     if (!setlocale(LC_ALL, g_locale)) { fprintf(stderr, "cannot set locale %s\n", g_locale); return 2; }
